@@ -150,7 +150,7 @@ class Query:
     def __init__(self, name, harness, tus=(), env=(), defs=None, unwind=None,
                  unwindset=(), flags=(), timeout=120, mem_gb=6, tier="quick",
                  params=None, group=None, expect_fail=(), cdefs=(), solver=None,
-                 leak=False, nowitness=False, objbits=None, unwind_rules=()):
+                 leak=False, nowitness=False, objbits=None, unwind_rules=(), allow_pruned=False):
         self.name = name
         self.harness = harness          # relative to /verif/harness
         self.tus = list(tus)            # relative to /repo/src
@@ -173,6 +173,8 @@ class Query:
         # [(function regex, regex on the source text of the loop head (3 lines), bound)]:
         # resolved to CBMC loop ids after linking, so that they survive edits of /repo
         self.unwind_rules = list(unwind_rules)
+        # a query whose every path is cut by an assumption (a schedule that is not executable) is not an error
+        self.allow_pruned = allow_pruned
 
 
 class Result:
@@ -468,6 +470,9 @@ class Ctx:
             return
         if res.failed:
             res.status = "fail"
+        elif not res.witness_ok and not q.nowitness and q.allow_pruned:
+            res.status = "pass"
+            res.reason += "pruned: no executable schedule for this shape; "
         elif not res.witness_ok and not q.nowitness:
             res.status = "inconclusive"
             res.reason += "harness has no witness; "
